@@ -201,7 +201,9 @@ Fixpoint loop (p : project) (fuel : nat) (work : list nat) (st : state) : state 
 Definition prepass (p : project) : state :=
   fold_left (fun st t => let k := task_of p t in
                          if t_leaf k && Nat.eqb (t_need k) 0
-                         then match t_pin k with Some s => place st t (s, s) | None => st end
+                         then match t_pin k with
+                              | Some s => if s <=? p_upper p then place st t (s, s) else st   (* inside the horizon only *)
+                              | None => st end
                          else st)
             (seq 0 (length (p_tasks p))) init.
 
